@@ -72,3 +72,41 @@ mod gap {
         kani::cover!(lb < 0 && ub > 0, "C17.cover_mixed_sign");
     }
 }
+
+// (Kani harnesses for Times / DivBy were tried and dropped: a 64x64-bit symbolic multiplication / division does not terminate in
+// CBMC within 20 minutes; the Verus unit `width` proves them with nonlinear arithmetic.)
+
+#[cfg(kani)]
+mod stores {
+    use super::*;
+    /// C18 / C09: the derived Ord of Threshold is lexicographic on (value, explored) and `max` keeps the larger one
+    #[kani::proof]
+    fn c18_threshold_max_is_lexicographic() {
+        let v1: isize = kani::any(); let e1: bool = kani::any();
+        let v2: isize = kani::any(); let e2: bool = kani::any();
+        let t = Threshold { value: v1, explored: e1 }.max(Threshold { value: v2, explored: e2 });
+        // lexicographic maximum on (value, explored), false < true
+        let first_is_max = v1 > v2 || (v1 == v2 && (e1 || !e2));
+        let exp = if first_is_max { (v1, e1) } else { (v2, e2) };
+        assert!(t.value == exp.0 && t.explored == exp.1, "C18.update_is_lexicographic_max");
+    }
+}
+
+#[cfg(kani)]
+mod ranking {
+    use super::*;
+    use std::cmp::Ordering;
+    use std::sync::Arc;
+    struct ByValue;
+    impl StateRanking for ByValue { type State = u8; fn compare(&self, a: &u8, b: &u8) -> Ordering { a.cmp(b) } }
+    /// C11: MaxUB orders by upper bound, then value, then the state ranking
+    #[kani::proof]
+    fn c11_maxub_is_lexicographic() {
+        let (u1, v1, s1, u2, v2, s2): (isize, isize, u8, isize, isize, u8) = (kani::any(), kani::any(), kani::any(), kani::any(), kani::any(), kani::any());
+        let a = SubProblem { state: Arc::new(s1), value: v1, path: vec![], ub: u1, depth: 0 };
+        let b = SubProblem { state: Arc::new(s2), value: v2, path: vec![], ub: u2, depth: 0 };
+        let rk = ByValue;
+        let r = MaxUB::new(&rk).compare(&a, &b);
+        assert!(r == (u1, v1, s1).cmp(&(u2, v2, s2)), "C11.maxub_lexicographic");
+    }
+}
